@@ -252,11 +252,11 @@ func cloneSet(ps [][]byte) [][]byte {
 	return out
 }
 
-func execC16Tamper(h hash.Hash, n, i, seed uint64, kind string, a uint64, p *c16Pool) string {
+func execC16Tamper(h hash.Hash, leafOf func(seed, j uint64) []byte, n, i, seed uint64, kind string, a uint64, p *c16Pool) string {
 	t := merkletree.New(h)
 	t.SetIndex(i)
 	for j := uint64(0); j < n; j++ {
-		t.Push(p.sub(c16Leaf(seed, j)))
+		t.Push(p.sub(leafOf(seed, j)))
 	}
 	root, ps0, pi, nl := t.Prove()
 	root = append([]byte(nil), root...)
@@ -265,6 +265,9 @@ func execC16Tamper(h hash.Hash, n, i, seed uint64, kind string, a uint64, p *c16
 	}
 	ps := cloneSet(ps0)
 	junk := bytes.Repeat([]byte{0x5a}, 32)
+	if h.Size() != 32 || h.BlockSize() != 64 { // an algebraic hasher: a digest it can absorb
+		junk = c16Sum(h, root)
+	}
 	ns := uint64(0) // number of siblings
 	if len(ps) > 0 {
 		ns = uint64(len(ps) - 1)
@@ -318,6 +321,23 @@ func execC16Tamper(h hash.Hash, n, i, seed uint64, kind string, a uint64, p *c16
 		}
 	case "empty":
 		ps = nil
+	case "leafnc": // bytes an algebraic hasher cannot absorb (not a canonical field element / not whole blocks)
+		if len(ps) > 0 {
+			ps[0] = bytes.Repeat([]byte{0xff}, h.BlockSize())
+		}
+	case "sibnc":
+		if ns > 0 {
+			k := 1 + a%ns
+			ps[k] = bytes.Repeat([]byte{0xff}, len(ps[k]))
+		}
+	case "leaflen":
+		if len(ps) > 0 {
+			ps[0] = append(ps[0], 1, 1, 1)
+		}
+	case "rootnc":
+		if root != nil {
+			root = bytes.Repeat([]byte{0xff}, len(root))
+		}
 	case "collapse":
 		if i+1 == n && a > 0 && a <= ns {
 			sum := c16Sum(h, ps[0])
@@ -333,7 +353,25 @@ func execC16Tamper(h hash.Hash, n, i, seed uint64, kind string, a uint64, p *c16
 	return boolStr(merkletree.VerifyProof(h, p.sub(root), p.set(ps), pi, nl))
 }
 
-func execC16Decomp(h hash.Hash, idx string, ops []string, p *c16Pool) string {
+// alias = true (`acca`): the caller REUSES its memory. Every slice handed to the library (leaf data, sub-tree roots) is
+// overwritten as soon as the call has returned, every slice the library returned (roots, proof sets and their elements) is
+// kept together with a deep copy made at that moment; `Ov` compares all of them with their copies and re-verifies the kept
+// proofs against the kept roots, `Om` overwrites everything that was returned so far (the caller owns what it was given).
+func execC16Decomp(h hash.Hash, idx string, ops []string, p *c16Pool, alias bool) string {
+	type kept struct {
+		root, rootC []byte
+		ps, psC     [][]byte
+		pi, nl      uint64
+		proof       bool
+	}
+	var keep []*kept
+	scribble := func(b []byte) {
+		if alias {
+			for i := range b {
+				b[i] = 0xee ^ byte(i)
+			}
+		}
+	}
 	t := merkletree.New(h)
 	flatT := merkletree.New(h)
 	proofTree := idx != "x"
@@ -346,13 +384,56 @@ func execC16Decomp(h hash.Hash, idx string, ops []string, p *c16Pool) string {
 		f := strings.Split(op, ":")
 		switch {
 		case f[0] == "Or" && len(f) == 1: // observation: Root()
-			outs = append(outs, c16RootHex(t.Root()))
+			r := t.Root()
+			if alias {
+				keep = append(keep, &kept{root: r, rootC: append([]byte(nil), r...)})
+			}
+			outs = append(outs, c16RootHex(r))
 		case f[0] == "Op" && len(f) == 1: // observation: Prove() and VerifyProof of what it returned
 			if !proofTree {
 				outs = append(outs, "bad-op") // (Prove panics by contract without SetIndex)
 				continue
 			}
+			if alias {
+				root, ps, pi, nl := t.Prove()
+				keep = append(keep, &kept{root: root, rootC: append([]byte(nil), root...), ps: ps, psC: cloneSet(ps), pi: pi, nl: nl, proof: true})
+				v := merkletree.VerifyProof(h, root, ps, pi, nl)
+				outs = append(outs, fmt.Sprintf("%s %x %s %s", c16RootHex(root), nl, c16ProofHex(ps), boolStr(v)))
+				continue
+			}
 			outs = append(outs, c16Prove(h, t, p))
+		case f[0] == "Ov" && len(f) == 1 && alias: // everything returned so far still has the value it was returned with
+			res := "same"
+			for k, x := range keep {
+				ok := bytes.Equal(x.root, x.rootC) && len(x.ps) == len(x.psC)
+				for j := 0; ok && j < len(x.ps); j++ {
+					ok = bytes.Equal(x.ps[j], x.psC[j])
+				}
+				if ok && x.proof && len(x.psC) > 0 {
+					ok = merkletree.VerifyProof(h, x.root, x.ps, x.pi, x.nl)
+				}
+				if !ok {
+					res = fmt.Sprintf("changed:%d", k)
+					break
+				}
+			}
+			outs = append(outs, res)
+		case f[0] == "Om" && len(f) == 1 && alias: // the caller overwrites what it was given
+			for _, x := range keep {
+				for i := range x.root {
+					x.root[i] ^= 0xff
+				}
+				for j := range x.ps {
+					for i := range x.ps[j] {
+						x.ps[j][i] ^= 0xff
+					}
+				}
+				for j := range x.ps {
+					x.ps[j] = nil
+				}
+			}
+			keep = nil
+			outs = append(outs, "ok")
 		case f[0] == "I" && len(f) == 2:
 			i := c16U(f[1])
 			if err := t.SetIndex(i); err != nil {
@@ -367,7 +448,12 @@ func execC16Decomp(h hash.Hash, idx string, ops []string, p *c16Pool) string {
 			outs = append(outs, "ok")
 		case f[0] == "P" && len(f) == 2:
 			d := parseBytes(f[1])
-			t.Push(p.sub(d))
+			in := p.sub(d)
+			if alias {
+				in = append(make([]byte, 0, len(d)+3), d...)
+			}
+			t.Push(in)
+			scribble(in)
 			flatT.Push(append([]byte{}, d...))
 			outs = append(outs, "ok")
 		case f[0] == "S" && len(f) == 3:
@@ -384,7 +470,10 @@ func execC16Decomp(h hash.Hash, idx string, ops []string, p *c16Pool) string {
 				outs = append(outs, "bad-op")
 				continue
 			}
-			if err := t.PushSubTree(int(c16U(f[1])), p.sub(r)); err != nil {
+			rin := p.sub(r)
+			err := t.PushSubTree(int(c16U(f[1])), rin)
+			scribble(rin)
+			if err != nil {
 				if strings.Contains(err.Error(), "shouldn't contain") {
 					outs = append(outs, "err:contains")
 				} else if strings.Contains(err.Error(), "larger than") {
@@ -398,14 +487,25 @@ func execC16Decomp(h hash.Hash, idx string, ops []string, p *c16Pool) string {
 				flatT.Push(l)
 			}
 			outs = append(outs, "ok")
-		case f[0] == "R" && len(f) == 3:
+		case f[0] == "R" && (len(f) == 3 || len(f) == 4):
 			seg := int(c16U(f[1]))
 			if seg == 0 {
 				outs = append(outs, "bad-op")
 				continue
 			}
 			b := parseBytes(f[2])
-			if err := t.ReadAll(bytes.NewReader(p.sub(b)), seg); err != nil {
+			spec := "full"
+			if len(f) == 4 {
+				spec = f[3]
+			}
+			rd, stop, good := c16Reader(spec, p.sub(b))
+			if !good {
+				outs = append(outs, "bad-op")
+				continue
+			}
+			err := t.ReadAll(rd, seg)
+			stop()
+			if err != nil {
 				outs = append(outs, "err:other")
 				continue
 			}
@@ -666,6 +766,33 @@ func execC16VxIdx(n, p int, pat string, seed uint64, list string, mode int) stri
 	return join(outs)
 }
 
+// `vxa`: the caller reuses the slice it built the tree from: BuildMerkleTree, then the input is overwritten, then Open(i) and
+// Verify of the committed leaf against Root()
+func execC16VxAlias(n, i int, pat string, seed uint64) string {
+	if n <= 0 {
+		return "bad-op"
+	}
+	in := make([]vortex.Hash, n, n+n%3)
+	for j := range in {
+		in[j] = vxHashOf(seed, vxLeafID(pat, j))
+	}
+	orig := append([]vortex.Hash{}, in...)
+	mt := vortex.BuildMerkleTree(in)
+	root0 := mt.Root()
+	for j := range in {
+		in[j] = vxHashOf(seed^0x55aa, uint64(j)+4242)
+	}
+	proof, err := mt.Open(i)
+	if err != nil {
+		return "err:range"
+	}
+	var leaf vortex.Hash
+	if i >= 0 && i < n {
+		leaf = orig[i]
+	}
+	return "ok " + boolStr(proof.Verify(i, leaf, mt.Root()) == nil && mt.Root() == root0)
+}
+
 func execC16(a []string) string {
 	if len(a) < 2 {
 		return "bad-op"
@@ -701,20 +828,32 @@ func execC16(a []string) string {
 		r := c16RootHex(t.Root())
 		return p.done(r + " " + r)
 	case a[0] == "acct" && len(a) == 7:
-		h := c16Hash(a[1])
+		h, lf := c16HashAny(a[1])
 		if h == nil {
 			return "bad-op"
 		}
 		p := &c16Pool{mode: c16Mode(a)}
-		return p.done(execC16Tamper(h, c16U(a[2]), c16U(a[3]), c16U(a[4]), a[5], c16U(a[6]), p))
+		return p.done(execC16Tamper(h, lf, c16U(a[2]), c16U(a[3]), c16U(a[4]), a[5], c16U(a[6]), p))
+	case a[0] == "accb" && len(a) == 6:
+		return execC16Bad(a[1], c16U(a[2]), c16U(a[3]), c16U(a[4]), parseBytes(a[5]))
+	case a[0] == "accrb" && len(a) == 4:
+		return execC16BadReader(a[1], int(c16U(a[2])), parseBytes(a[3]))
 	case a[0] == "accd" && len(a) >= 3:
 		h := c16Hash(a[1])
 		if h == nil {
 			return "bad-op"
 		}
 		p := &c16Pool{mode: c16Mode(a)}
-		return p.done(execC16Decomp(h, a[2], a[3:], p))
-	case a[0] == "accr" && len(a) == 5:
+		return p.done(execC16Decomp(h, a[2], a[3:], p, false))
+	case a[0] == "acca" && len(a) >= 3:
+		h := c16Hash(a[1])
+		if h == nil {
+			return "bad-op"
+		}
+		return execC16Decomp(h, a[2], a[3:], nil, true)
+	case a[0] == "vxa" && len(a) == 5:
+		return execC16VxAlias(int(c16U(a[1])), c16I(a[2]), a[3], c16U(a[4]))
+	case a[0] == "accr" && (len(a) == 5 || len(a) == 6):
 		h := c16Hash(a[1])
 		seg := int(c16U(a[3]))
 		if h == nil || seg == 0 {
@@ -722,15 +861,24 @@ func execC16(a []string) string {
 		}
 		p := &c16Pool{mode: c16Mode(a)}
 		b := p.sub(parseBytes(a[4]))
+		spec := "full"
+		if len(a) == 6 {
+			spec = a[5]
+		}
+		rd, stop, good := c16Reader(spec, b)
+		if !good {
+			return "bad-op"
+		}
+		defer stop()
 		if a[2] == "x" {
-			r, err := merkletree.ReaderRoot(bytes.NewReader(b), h, seg)
+			r, err := merkletree.ReaderRoot(rd, h, seg)
 			if err != nil {
 				return p.done("err:other")
 			}
 			return p.done(c16RootHex(r))
 		}
 		i := c16U(a[2])
-		r, ps, nl, err := merkletree.BuildReaderProof(bytes.NewReader(b), h, seg, i)
+		r, ps, nl, err := merkletree.BuildReaderProof(rd, h, seg, i)
 		if err != nil {
 			if len(ps) != 0 || !strings.Contains(err.Error(), "not reached") {
 				return p.done("err:other")
@@ -866,6 +1014,12 @@ func genC16(g *gen) {
 	}
 	// A3. decompositions into Push / PushSubTree / ReadAll
 	c16GenDecomp(g)
+	// A4. the reader front ends through every reader chunking
+	c16GenReaders(g)
+	// A5. callers that reuse their memory
+	c16GenAlias(g)
+	// A6. the algebraic hashers (MiMC, Poseidon2): tampering verdicts, leaves the hasher cannot absorb
+	c16GenAlg(g)
 	// B. Vortex
 	VN := g.budget(130, 1100)
 	for n := 1; n <= VN; n++ {
@@ -954,6 +1108,8 @@ func genC16(g *gen) {
 	g.emit("C16 accd sha256 0 R:0:00")
 	g.emit("C16 accr sha256 0 0 00")
 	g.emit("C16 accr md5 0 1 00")
+	g.emit("C16 accr sha256 0 1 00 nosuch")
+	g.emit("C16 accr sha256 0 1 00 chunk=0")
 }
 
 func c16SInt(j int) string {
